@@ -32,6 +32,7 @@ type env struct {
 	resNames []string
 	lets    map[string]ast.Expr
 	phiVal  func(*ssa.Phi) string
+	freshBase string // allocation mark that fresh() is relative to (default: function entry)
 	letBusy map[string]bool
 }
 
@@ -618,7 +619,11 @@ func (g *gen) specCall(e *env, n *ast.CallExpr) sval {
 		return g.spec(oe, n.Args[0])
 	case "fresh":
 		v := arg(0)
-		return sval{t: sAnd(app(">", v.t, g.top0)), gt: tBool, sort: "Bool"}
+		base := g.top0
+		if e.freshBase != "" {
+			base = e.freshBase
+		}
+		return sval{t: sAnd(app(">", v.t, base)), gt: tBool, sort: "Bool"}
 	case "allocated":
 		v := arg(0)
 		return sval{t: sAnd(app("<=", v.t, e.st.top)), gt: tBool, sort: "Bool"}
@@ -667,6 +672,26 @@ func (g *gen) specCall(e *env, n *ast.CallExpr) sval {
 		return sval{t: app("select", g.heapVar(e.st, sbHeap, sbSort), v.t), sort: "RSeq"}
 	case "errflag":
 		return sval{t: g.errFlag, gt: tBool, sort: "Bool"}
+	case "rangeidx":
+		// number of completed iterations of the innermost range-over-slice loop (its hidden index + 1)
+		var best *loopInfo
+		for _, li := range g.loops {
+			if li.body[g.curBlock] && (best == nil || len(li.body) < len(best.body)) {
+				for _, in := range li.header.Instrs {
+					if p, ok := in.(*ssa.Phi); ok && p.Comment == "rangeindex" {
+						best = li
+					}
+				}
+			}
+		}
+		if best == nil {
+			g.specFail(n, "rangeidx(): no range loop here")
+		}
+		for _, in := range best.header.Instrs {
+			if p, ok := in.(*ssa.Phi); ok && p.Comment == "rangeindex" {
+				return sval{t: app("+", g.phiIn(e, p), "1"), gt: tInt, sort: "Int"}
+			}
+		}
 	case "rangepos":
 		return sval{t: g.rangePos(e), gt: tInt, sort: "Int"}
 	case "heapEq":
